@@ -16,7 +16,7 @@ TNext ==
     \/ (Is("UPush") /\ Push(Ev.p, Ev.u) /\ UNCHANGED made)
     \/ (Is("UPop") /\ Pop(Ev.p, Ev.u) /\ UNCHANGED made)
     \* creation of a work unit: on success it exists (with a unit iff its pool is user-defined), on failure no handle and no unit
-    \/ (Is("UNew") /\ Ev.ret = 0 /\ Ev.hnull = 0 /\ Ev.t \notin made /\ Cardinality(UnitsOf(Ev.t)) <= 1 /\ made' = made \cup {Ev.t} /\ UNCHANGED hvars)
+    \/ (Is("UNew") /\ Ev.ret = 0 /\ Ev.hnull = 0 /\ Ev.t \notin made /\ made' = made \cup {Ev.t} /\ UNCHANGED hvars)
     \/ (Is("UNew") /\ Ev.ret = 1 /\ Ev.hnull = 1 /\ Ev.t \notin made /\ UnitsOf(Ev.t) = {} /\ UNCHANGED <<hvars, made>>)
     \/ (Is("Look") /\ Look(Ev.t, Ev.u, Ev.back) /\ UNCHANGED made)
     \/ (Is("Assoc") /\ Ev.ret = 0 /\ Assoc(Ev.t, Ev.p, Ev.user = 1) /\ UNCHANGED made)
